@@ -7,6 +7,9 @@ R7.1 [AVN, relational] batched == solo: training.wrap(env) (Vmap / DomainRandomi
      AutoReset) on a batch of three members with independent termination flags gives, member by
      member and over several steps, exactly the normal forms obtained by running the SAME code
      on that member alone (batch of one) -- including per-member randomised systems.
+R7.4 [AVN, re-entrancy law] on the un-vmapped stack (Episode -> AutoReset over a bare env whose step shares
+     info with its input) stepping twice from the same state object gives the same result: the
+     necessary and sufficient condition for eager evaluation to agree with jit on a re-used state.
 R7.2 [STRUCT] lifting sites: VmapWrapper maps self.env.reset / step over all arguments; the domain
      randomisation wrapper maps (sys_v, state, action) with in_axes [self._in_axes, 0, 0].
 R7.3 [STRUCT] no cross-member channel in mapped code: no collectives / axis names, no `axis=` passed
@@ -33,7 +36,7 @@ EXPLANATION = (
     'for every termination schedule at once.  Structural rules fix the vmap lifting sites and '
     'exclude collectives, ignored axis arguments and Python-side state in mapped code.')
 TRUSTED = ['python ast', 'AVN normal form', 'jax.vmap = independent elementwise application (XLA semantics)']
-ASSUMPTIONS = ['jit-vs-eager numeric agreement is not decided', 'inside jax.vmap members cannot observe each other (JAX semantics)']
+ASSUMPTIONS = ['jit-vs-eager agreement: decided as purity (R7.4); round-off differences of XLA fusion are not decided', 'inside jax.vmap members cannot observe each other (JAX semantics)']
 
 TW = 'brax.envs.wrappers.training'
 
@@ -124,6 +127,36 @@ def batched_equals_solo(U, rep, tier):
                 where=f.where(), construct='reset + %d steps, independent symbolic termination flags per member' % nsteps)
 
 
+def reentrant(U, rep, tier):
+  """R7.4: jit == eager on a re-used state.  Under jit every call re-traces from the caller's values; eagerly,
+  an in-place write to a dict shared with the caller's state survives the call.  The two agree iff stepping
+  TWICE from the same state object gives the same result -- decided on the un-vmapped stack
+  (envs.create without batch_size: Episode -> AutoReset over the bare env, whose step returns
+  state.replace(...) and therefore shares `info` / `metrics` with its input, as every bundled env does)."""
+  f = U.func(TW + '.EpisodeWrapper.step')
+  for ar in (1, 2, 3) if tier == 'thorough' else (1, 2):
+    for stack in ('Episode', 'Episode -> AutoReset'):
+      I = new_interp(U.repo)
+      S = c15.Script(I)
+      w = c15.mk(I, 'EpisodeWrapper', S.env(), sym('L'), ar)
+      if 'AutoReset' in stack:
+        w = c15.mk(I, 'AutoResetWrapper', w)
+      s = I.apply(I.attr(w, 'reset'), [symarr('key', (2,))], {})
+      s.f['info']['steps'] = sym('steps0')
+      s.f['done'] = c15.batom('done0')
+      a = symarr('a', (2,))
+      views = []
+      for _ in range(2):
+        r = I.apply(I.attr(w, 'step'), [s, a], {})
+        views.append(dict(steps=r.f['info']['steps'], truncation=r.f['info']['truncation'], done=r.f['done'], obs=r.f['obs'],
+                          reward=r.f['reward'], ps=r.f['pipeline_state'].f['q']))
+      bad = [k for k in views[0] if not same(views[0][k], views[1][k])]
+      rep.check(not bad, 'R7.4', '%s (action_repeat=%d): stepping twice from the same state object gives the same result' % (stack, ar),
+                lambda: 'the second step from the same (un-vmapped) state differs in %s: the first call wrote into a dict shared with '
+                'its input state, so eager evaluation disagrees with jit on a re-used state' % ', '.join(bad),
+                where=f.where(), construct='step(s, a) evaluated twice on one state object; inner env step = state.replace(...) sharing info')
+
+
 def lifting_sites(U, rep):
   for m, nparams in (('reset', 1), ('step', 2)):
     f = U.func('%s.VmapWrapper.%s' % (TW, m))
@@ -185,5 +218,6 @@ def no_channels(U, rep):
 
 def run(U, rep, tier):
   batched_equals_solo(U, rep, tier)
+  reentrant(U, rep, tier)
   lifting_sites(U, rep)
   no_channels(U, rep)
